@@ -143,6 +143,19 @@ mut("stack_max_ignores_last_node", ["C09"], "calAndSetStackSize/",
 # ---- C01 (name resolution order)
 mut("leaf_variable_before_constant", ["C01"], "parser.setLeafNodeParsers/post/resolution-order",
     [("parser.go", "\t\tp.parseInt, p.parseStr, p.parseConst, p.parseVariable, p.parseUnknownVariable}", "\t\tp.parseInt, p.parseStr, p.parseVariable, p.parseConst, p.parseUnknownVariable}")], "a name that is both a constant and a variable resolves to the variable")
+# ---- probes of mechanisms that only the bounded tier covers
+mut("reduce_nesting_merges_any_bool_operator", ["C02"], "bnd/",
+    [("compiler.go", "\t\tif isAndOpNode(cn) == rootOpType {\n\t\t\tchildren = append(children, child.children...)", "\t\tif isAndOpNode(cn) == rootOpType || len(child.children) == 2 {\n\t\t\tchildren = append(children, child.children...)")], "a two-operand or inside an and (or vice versa) is flattened into its parent")
+mut("dump_if_takes_fi_as_else", ["C13"], "bnd/redump",
+    [("util.go", "\t\t\t\tres[3], // false branch", "\t\t\t\tres[2], // false branch")], "Dump prints the end-if marker instead of the else branch")
+mut("lexer_bang_split_keeps_bang", ["C15"], "bnd/c15",
+    [("parser.go", "\t\t\t\tp.tokens = append(p.tokens, token{typ: ident, val: \"!\"})\n\t\t\t\tp.tokens = append(p.tokens, token{typ: ident, val: next})", "\t\t\t\tp.tokens = append(p.tokens, token{typ: ident, val: \"!\"})\n\t\t\t\tp.tokens = append(p.tokens, token{typ: ident, val: t})")], "!name is split into ! and !name")
+mut("empty_list_is_int_list", ["C17"], "parser.parseList.$1/post/",
+    [("parser.go", "\t\tif typ == integer {\n\t\t\tints := make([]int64, 0, len(strs))", "\t\tif typ == integer || len(strs) == 0 {\n\t\t\tints := make([]int64, 0, len(strs))")], "the empty list literal is an empty int list")
+mut("generator_zero_check_skips_second_operand", ["C20"], "bnd/c20",
+    [("util.go", "\t\t\tfor _, res := range childRes[1:] {\n\t\t\t\tif res == int64(0) {", "\t\t\tfor _, res := range childRes[2:] {\n\t\t\t\tif res == int64(0) {")], "a zero second operand no longer excludes / and %")
+mut("event_scidx_points_to_event_node", ["C12"], "bnd/",
+    [("compiler.go", "\t\tif n.scIdx != -1 {\n\t\t\tn.scIdx = realIdxes[n.scIdx]\n\t\t}", "\t\tif n.scIdx != -1 {\n\t\t\tn.scIdx = eventNodeIdxes[n.scIdx]\n\t\t}")], "with events on, short-circuit jumps land on the event node in front of the target")
 
 def main():
     out = os.path.join(os.path.dirname(os.path.abspath(__file__)), "mutants")
